@@ -1,8 +1,8 @@
 SPECIFICATION Spec
 CONSTANTS
  Rounds = 2
- HoldStreamInClose = TRUE
- ReentrantRLock = FALSE
+ HoldStreamInClose = FALSE
+ ReentrantRLock = TRUE
  CallbackUnderAssoc = FALSE
 INVARIANTS NoDeadlock Mutex
 CHECK_DEADLOCK FALSE
